@@ -163,8 +163,18 @@ def partition_model(fc, bounds):
     return dof0, np.setdiff1d(np.arange(n), dof0)
 
 
+def units(case, cls, rec=None):
+    """every sixth case uses a unit system with small numbers (soft and heavy body): all eigenvalues are of the order 1e-11"""
+    if case["seed"] % 6 == 4 and cls != "mixed-hexahedron":
+        case = dict(case, E=case["E"] * 1e-10)
+        if rec is not None:
+            rec.label("small-number-units")
+    return case
+
+
 def check(cls, case, rec):
     fem = import_felupe()
+    case = units(case, cls, rec)
     mesh, Xref, fc, um, dim = model(fem, cls, case)
     # every fourth case: the boundaries live on a separate global field container that is handed over as x0 (multi-body
     # workflow); the items keep containers of their own
@@ -306,6 +316,7 @@ def free_check(cls, case, rec):
     fem = import_felupe()
     from scipy.sparse.linalg import eigsh
 
+    case = units(case, cls, rec)
     mesh, Xref, fc, um, dim = model(fem, cls, case)
     rho = case["rho"]
     body = fem.SolidBody(um, fc, density=rho)
@@ -328,6 +339,7 @@ def free_check(cls, case, rec):
 
 def rigid_check(cls, case, rec):
     fem = import_felupe()
+    case = units(case, cls, rec)
     mesh, Xref, fc, um, dim = model(fem, cls, case)
     case = dict(case)
     if case["bc"] == "face-partial":
